@@ -19,56 +19,60 @@ import (
 	"fmt"
 )
 
-const AdSecretMarker = "ZKM"
+const C08SecretMarker = "ZKM"
 
-// ClearFrame is a frame after the reference opener looked at it: Data is the
+// C08ClearFrame is a frame after the reference opener looked at it: Data is the
 // payload in the clear, Prot says whether it arrived AES-GCM protected.
-type ClearFrame struct {
+type C08ClearFrame struct {
 	End  byte
 	Data []byte
 	Prot bool
 }
 
-func AdInt(v int64) []byte {
+func C08AdInt(v int64) []byte {
 	b := make([]byte, 8)
 	binary.BigEndian.PutUint64(b, uint64(v))
 	return b
 }
 
-// AdString renders one string field.
-func AdString(s string, lenPrefixed bool) []byte {
+// C08AdString renders one string field.
+func C08AdString(s string, lenPrefixed bool) []byte {
 	var b []byte
 	if lenPrefixed {
-		b = append(b, AdInt(int64(len(s)+1))...)
+		b = append(b, C08AdInt(int64(len(s)+1))...)
 	}
 	b = append(b, s...)
 	return append(b, 0)
 }
 
-// WireItem is one expression item as found on the wire.
-type WireItem struct {
+// C08WireItem is one expression item as found on the wire.
+type C08WireItem struct {
 	Text   string
 	Secret bool // marker + secret form
 	Prot   bool // every byte of Text travelled inside protected frames
 }
 
-// WireAd is what DecodeAd found.
-type WireAd struct {
+// C08WireAd is what C08DecodeAd found.
+type C08WireAd struct {
 	Count int64
-	Items []WireItem
+	Items []C08WireItem
 	Tail  []string // every string after the items up to the end of the message
 	// TailProt[i]: Tail[i] travelled inside protected frames
 	TailProt []bool
+	// Bounds are the end offsets of every field (count, each string) in the
+	// concatenation of all frame payloads.
+	Bounds []int
 }
 
-type adReader struct {
-	fr  []ClearFrame
+type c08AdReader struct {
+	fr  []C08ClearFrame
 	i   int // current frame
 	off int // offset in current frame
+	abs int // bytes consumed so far
 }
 
 // skip exhausted frames; false when no data is left
-func (r *adReader) more() bool {
+func (r *c08AdReader) more() bool {
 	for r.i < len(r.fr) && r.off >= len(r.fr[r.i].Data) {
 		r.i++
 		r.off = 0
@@ -76,17 +80,18 @@ func (r *adReader) more() bool {
 	return r.i < len(r.fr)
 }
 
-func (r *adReader) byte() (b byte, prot bool, ok bool) {
+func (r *c08AdReader) byte() (b byte, prot bool, ok bool) {
 	if !r.more() {
 		return 0, false, false
 	}
 	b = r.fr[r.i].Data[r.off]
 	prot = r.fr[r.i].Prot
 	r.off++
+	r.abs++
 	return b, prot, true
 }
 
-func (r *adReader) int64() (int64, bool, error) {
+func (r *c08AdReader) int64() (int64, bool, error) {
 	var buf [8]byte
 	allProt := true
 	for k := 0; k < 8; k++ {
@@ -101,7 +106,7 @@ func (r *adReader) int64() (int64, bool, error) {
 }
 
 // str reads one string; its framing follows the protection of the frame it starts in.
-func (r *adReader) str() (s string, prot bool, err error) {
+func (r *c08AdReader) str() (s string, prot bool, err error) {
 	if !r.more() {
 		return "", false, errors.New("no string left")
 	}
@@ -144,9 +149,9 @@ func (r *adReader) str() (s string, prot bool, err error) {
 	}
 }
 
-// DecodeAd parses one message that starts with an ad.
-func DecodeAd(frames []ClearFrame) (*WireAd, error) {
-	r := &adReader{fr: frames}
+// C08DecodeAd parses one message that starts with an ad.
+func C08DecodeAd(frames []C08ClearFrame) (*C08WireAd, error) {
+	r := &c08AdReader{fr: frames}
 	n, _, err := r.int64()
 	if err != nil {
 		return nil, fmt.Errorf("count: %w", err)
@@ -154,19 +159,21 @@ func DecodeAd(frames []ClearFrame) (*WireAd, error) {
 	if n < 0 || n > 1<<20 {
 		return nil, fmt.Errorf("count %d", n)
 	}
-	ad := &WireAd{Count: n}
+	ad := &C08WireAd{Count: n, Bounds: []int{r.abs}}
 	for k := int64(0); k < n; k++ {
 		s, p, err := r.str()
 		if err != nil {
 			return nil, fmt.Errorf("item %d: %w", k, err)
 		}
-		it := WireItem{Text: s, Prot: p}
-		if s == AdSecretMarker {
+		ad.Bounds = append(ad.Bounds, r.abs)
+		it := C08WireItem{Text: s, Prot: p}
+		if s == C08SecretMarker {
 			s2, p2, err := r.str()
+			ad.Bounds = append(ad.Bounds, r.abs)
 			if err != nil {
 				return nil, fmt.Errorf("secret %d: %w", k, err)
 			}
-			it = WireItem{Text: s2, Secret: true, Prot: p2}
+			it = C08WireItem{Text: s2, Secret: true, Prot: p2}
 		}
 		ad.Items = append(ad.Items, it)
 	}
@@ -177,40 +184,41 @@ func DecodeAd(frames []ClearFrame) (*WireAd, error) {
 		}
 		ad.Tail = append(ad.Tail, s)
 		ad.TailProt = append(ad.TailProt, p)
+		ad.Bounds = append(ad.Bounds, r.abs)
 	}
 	return ad, nil
 }
 
-// OpenAll splits raw bytes into frames and opens those that are protected.
+// C08OpenAll splits raw bytes into frames and opens those that are protected.
 // With a nil opener every frame is clear. mustAll demands that every frame opens
 // (an encrypting stream); otherwise a frame that does not open is taken as clear.
-func OpenAll(raw []byte, o *Opener, mustAll bool) ([]ClearFrame, error) {
+func C08OpenAll(raw []byte, o *Opener, mustAll bool) ([]C08ClearFrame, error) {
 	frs, rest := ParseFrames(raw)
 	if len(rest) != 0 {
 		return nil, fmt.Errorf("%d trailing bytes that are not a frame", len(rest))
 	}
-	var out []ClearFrame
+	var out []C08ClearFrame
 	for i, f := range frs {
 		if o != nil {
 			if pt, err := o.Open(f); err == nil {
-				out = append(out, ClearFrame{End: f.End, Data: pt, Prot: true})
+				out = append(out, C08ClearFrame{End: f.End, Data: pt, Prot: true})
 				continue
 			} else if mustAll {
 				return nil, fmt.Errorf("frame %d of an encrypting stream does not open: %v", i, err)
 			}
 		}
-		out = append(out, ClearFrame{End: f.End, Data: f.Body})
+		out = append(out, C08ClearFrame{End: f.End, Data: f.Body})
 	}
 	return out, nil
 }
 
-// Reframe re-cuts the payloads of a message at the given plan and renders raw
+// C08Reframe re-cuts the payloads of a message at the given plan and renders raw
 // wire bytes again: clear runs become clear frames, protected runs are sealed
 // with s (which must be a fresh Sealer for the direction). cutEvery > 0 cuts a
 // run into pieces of that many bytes; cuts lists additional absolute offsets
 // (in the concatenation of all payloads) to cut at. Protection boundaries are
 // always kept. The last frame carries the end flag.
-func Reframe(frames []ClearFrame, s *Sealer, cutEvery int, cuts map[int]bool) []byte {
+func C08Reframe(frames []C08ClearFrame, s *Sealer, cutEvery int, cuts map[int]bool) []byte {
 	type piece struct {
 		data []byte
 		prot bool
